@@ -56,7 +56,17 @@ fn step(inst: &mut v1::Instance, op: &str, a: &Value) -> Value {
             Err(e) => err(e),
         },
         "as_min" => {
+            // downscaled replay: the objective's coefficients enter the SDK divided by 2^k (magnitudes far below f64::EPSILON)
+            // and the converted objective is multiplied by 2^k again before it is recorded -- both exact, so "negated
+            // exactly" must give the very objective the judge expects for the logged instance
+            let k = a.get("downscale").and_then(|k| k.as_i64());
+            if let (Some(k), Some(f)) = (k, inst.objective.as_mut()) {
+                crate::exec::scale_function(f, 2f64.powi(-(k as i32)));
+            }
             inst.as_minimization_problem();
+            if let (Some(k), Some(f)) = (k, inst.objective.as_mut()) {
+                crate::exec::scale_function(f, 2f64.powi(k as i32));
+            }
             json!({"tag":"ok"})
         }
         "log_encode" => match inst.log_encode(a["vid"].as_u64().unwrap()) {
